@@ -447,3 +447,295 @@ Example new_order_catches_lapse :
                       EInitList 0; EInitRead 0; ELapse 0] in
   map w_st (wls (settle (settle_bound s1 0) 0 s1)) = [Some (false, false)].
 Proof. vm_compute. reflexivity. Qed.
+
+(* ------------------------------------------------------------------ *)
+(* liveness under all interleavings                                    *)
+(* ------------------------------------------------------------------ *)
+
+(* events that end the session of watcher k *)
+Definition ends (k : nat) (e : event) : Prop := e = EStop k \/ e = EExpire k.
+
+(* the handler for n has run (as one of the first [length t - base] entries of the trace)
+   and covered every workload in [must] *)
+Definition handled_since (base : nat) (k : nat) (n : node) (must : list wid) (t : list tev) : Prop :=
+  exists ws, In (THandled k n ws) (firstn (length t - base) t) /\ incl must ws.
+
+Definition pending (s : st) (k : nat) (n : node) : Prop :=
+  exists se, phase s k = Active se /\ (In (n, false) (se_queue se) \/ In n (se_tasks se)).
+
+(* workloads are only appended and never change node *)
+Definition extends (l0 l : list wl) : Prop :=
+  exists more, map w_node l = map w_node l0 ++ more.
+
+Lemma on_node_from_app : forall n l1 l2 i,
+  on_node_from n (l1 ++ l2) i = on_node_from n l1 i ++ on_node_from n l2 (i + length l1).
+Proof.
+  intros n l1. induction l1 as [|w t IH]; intros l2 i; simpl.
+  - rewrite Nat.add_0_r. reflexivity.
+  - rewrite IH. replace (S i + length t) with (i + S (length t)) by lia.
+    destruct (w_node w =? n); reflexivity.
+Qed.
+Lemma on_node_from_nodes : forall n l l' i, map w_node l = map w_node l' ->
+  on_node_from n l i = on_node_from n l' i.
+Proof.
+  intros n l. induction l as [|w t IH]; intros [|w' t'] i E; simpl in *; try discriminate; [reflexivity|].
+  inversion E. rewrite H0. rewrite (IH t' (S i) H1). reflexivity.
+Qed.
+
+Lemma extends_refl : forall l, extends l l.
+Proof. intro l. exists []. rewrite app_nil_r. reflexivity. Qed.
+Lemma extends_same_nodes : forall l0 l l', extends l0 l -> map w_node l' = map w_node l -> extends l0 l'.
+Proof. intros l0 l l' [m E] H. exists m. congruence. Qed.
+Lemma extends_snoc : forall l0 l w, extends l0 l -> extends l0 (l ++ [w]).
+Proof. intros l0 l w [m E]. exists (m ++ [w_node w]). rewrite map_app, E, app_assoc. reflexivity. Qed.
+
+Lemma on_node_extends : forall n l0 l, extends l0 l -> incl (on_node n l0) (on_node n l).
+Proof.
+  intros n l0 l [m E]. unfold on_node.
+  rewrite (on_node_from_nodes n l (l0 ++ map (fun x => mkWl x None) m) 0).
+  - rewrite on_node_from_app. intros x Hx. apply in_or_app. left. exact Hx.
+  - rewrite E, map_app, map_map. simpl. rewrite map_id. reflexivity.
+Qed.
+
+Lemma map_node_upd : forall i r h l,
+  map w_node (upd i (fun x => mkWl (w_node x) (Some (r, h))) l) = map w_node l.
+Proof. intros i r h l. revert i. induction l as [|w t IH]; intros [|i]; simpl; auto. rewrite IH. reflexivity. Qed.
+
+Lemma In_remove_nth : forall (n : node) j l x, nth_error l j = Some x -> x <> n -> In n l -> In n (remove_nth j l).
+Proof.
+  intros n j l. revert j. induction l as [|y t IH]; intros [|j] x H Hx Hin; simpl in *; try discriminate.
+  - inversion H; subst. destruct Hin; [congruence|assumption].
+  - destruct Hin as [Hin|Hin]; [left; exact Hin|right; eapply IH; eauto].
+Qed.
+
+(* the state of the obligation created by a DELETE event for n seen by watcher k *)
+Record track (s0 s : st) (k : nat) (n : node) : Prop := mkTrack {
+  tr_ext : extends (wls s0) (wls s);
+  tr_obl : pending s k n \/
+           exists new ws, trace s = new ++ trace s0 /\ In (THandled k n ws) new /\ incl (on_node n (wls s0)) ws;
+  tr_trace : exists new, trace s = new ++ trace s0
+}.
+
+Lemma pending_other : forall s k n k' p, k' <> k -> pending s k n -> pending (set_phase s k' p) k n.
+Proof.
+  intros s k n k' p Hk [se [P H]]. exists se. split; [|exact H].
+  rewrite phase_set_other by exact Hk. exact P.
+Qed.
+Lemma pending_same : forall s k n se se',
+  phase s k = Active se ->
+  (In (n, false) (se_queue se) -> In (n, false) (se_queue se') \/ In n (se_tasks se')) ->
+  (In n (se_tasks se) -> In n (se_tasks se')) ->
+  pending s k n -> pending (set_phase s k (Active se')) k n.
+Proof.
+  intros s k n se se' P Hq Ht [se1 [P1 H]]. rewrite P in P1. inversion P1; subst se1.
+  exists se'. split; [apply phase_set_same; eapply phase_active_lt; exact P|].
+  destruct H as [H|H]; [apply Hq in H; tauto|right; auto].
+Qed.
+Lemma pending_frame : forall s s' k n, phase s' k = phase s k -> pending s k n -> pending s' k n.
+Proof. intros s s' k n E [se [P H]]. exists se. split; [congruence|exact H]. Qed.
+
+Lemma extends_trans : forall a b c, extends a b -> extends b c -> extends a c.
+Proof. intros a b c [m1 E1] [m2 E2]. exists (m1 ++ m2). rewrite E2, E1, app_assoc. reflexivity. Qed.
+
+Lemma trace_grows : forall s e, exists pre, trace (step s e) = pre ++ trace s.
+Proof.
+  intros s e. destruct e; simpl;
+    repeat match goal with
+    | |- context [if ?b then _ else _] => destruct b
+    | |- context [match phase ?s ?k with _ => _ end] => destruct (phase s k)
+    | |- context [match holder ?s with _ => _ end] => destruct (holder s)
+    | |- context [match se_init ?x with _ => _ end] => destruct (se_init x)
+    | |- context [match se_queue ?x with _ => _ end] => destruct (se_queue x) as [|[? ?] ?]
+    | |- context [match nth_error ?a ?b with _ => _ end] => destruct (nth_error a b)
+    end; simpl; try (exists []; reflexivity).
+  eexists [_]. reflexivity.
+Qed.
+
+Lemma wls_extends : forall s e, extends (wls s) (wls (step s e)).
+Proof.
+  intros s e. destruct e; simpl;
+    repeat match goal with
+    | |- context [if ?b then _ else _] => destruct b
+    | |- context [match phase ?s ?k with _ => _ end] => destruct (phase s k)
+    | |- context [match holder ?s with _ => _ end] => destruct (holder s)
+    | |- context [match se_init ?x with _ => _ end] => destruct (se_init x)
+    | |- context [match se_queue ?x with _ => _ end] => destruct (se_queue x) as [|[? ?] ?]
+    | |- context [match nth_error ?a ?b with _ => _ end] => destruct (nth_error a b)
+    end; simpl; try apply extends_refl.
+  - apply extends_snoc. apply extends_refl.
+  - eapply extends_same_nodes; [apply extends_refl|]. apply map_node_upd.
+  - eapply extends_same_nodes; [apply extends_refl|]. apply map_node_down.
+Qed.
+
+Lemma phase_enqueue_any : forall s n a k al,
+  phase (set_ws (set_alive s al) (map (enqueue n a) (ws s))) k = enqueue n a (phase s k).
+Proof.
+  intros. unfold phase. simpl. change Stopped with (enqueue n a Stopped) at 1. rewrite map_nth. reflexivity.
+Qed.
+
+Lemma pending_enqueue : forall s k n m a al,
+  pending s k n -> pending (set_ws (set_alive s al) (map (enqueue m a) (ws s))) k n.
+Proof.
+  intros s k n m a al [se [P H]]. unfold pending. rewrite phase_enqueue_any, P. simpl.
+  destruct (se_watch se); [|exists se; auto].
+  eexists. split; [reflexivity|]. simpl. destruct H as [H|H]; [left; apply in_or_app; left; exact H|right; exact H].
+Qed.
+
+Lemma pending_step : forall s k n e, ~ ends k e -> pending s k n ->
+  pending (step s e) k n \/ trace (step s e) = THandled k n (on_node n (wls s)) :: trace s.
+Proof.
+  intros s k n e NE Pd.
+  destruct e; simpl.
+  - (* EAddNode *) destruct (memn n0 (nodes s)); left; [exact Pd|eapply pending_frame; [|exact Pd]; reflexivity].
+  - (* EHeartbeat *) destruct (negb (memn n0 (nodes s))); [left; exact Pd|].
+    destruct (memn n0 (alive s)); [left; exact Pd|]. left. apply pending_enqueue. exact Pd.
+  - (* ELapse *) destruct (memn n0 (alive s)); [|left; exact Pd]. left. apply pending_enqueue. exact Pd.
+  - (* ECreate *) destruct (memn n0 (nodes s)); left; [eapply pending_frame; [|exact Pd]; reflexivity|exact Pd].
+  - (* EReport *) left. eapply pending_frame; [|exact Pd]. reflexivity.
+  - (* ESpawn *) left. destruct Pd as [se [P H]]. exists se. split; [|exact H].
+    unfold phase in *. simpl. rewrite app_nth1; [exact P|]. eapply phase_active_lt. exact P.
+  - (* EStart *) destruct (phase s k0) eqn:Pk; try (left; exact Pd).
+    destruct (Nat.eq_dec k0 k) as [E|E]; [subst; destruct Pd as [se [P _]]; congruence|].
+    left. apply pending_other; assumption.
+  - (* ERegister *) destruct (phase s k0) eqn:Pk; try (left; exact Pd).
+    destruct (holder s); [left; exact Pd|].
+    destruct (Nat.eq_dec k0 k) as [E|E]; [subst; destruct Pd as [se [P _]]; congruence|].
+    left. eapply pending_frame; [|apply (pending_other s k n k0 (Active fresh) E Pd)]. reflexivity.
+  - (* EExpire *) destruct (Nat.eq_dec k0 k) as [E|E]; [subst; exfalso; apply NE; right; reflexivity|].
+    destruct (phase s k0); try (left; exact Pd).
+    left. eapply pending_frame; [|apply (pending_other s k n k0 Waiting E Pd)]. reflexivity.
+  - (* EStop *) destruct (Nat.eq_dec k0 k) as [E|E]; [subst; exfalso; apply NE; left; reflexivity|].
+    destruct (phase s k0); try (left; exact Pd); left.
+    + apply pending_other; assumption.
+    + apply pending_other; assumption.
+    + eapply pending_frame; [|apply (pending_other s k n k0 Stopped E Pd)]. reflexivity.
+  - (* EWatch *) destruct (phase s k0) eqn:Pk; try (left; exact Pd). left.
+    destruct (Nat.eq_dec k0 k) as [E|E]; [subst|apply pending_other; assumption].
+    eapply pending_same; [exact Pk| | |exact Pd]; simpl; auto.
+  - (* EInitList *) destruct (phase s k0) eqn:Pk; try (left; exact Pd).
+    destruct (se_listed se || negb (se_watch se)); [left; exact Pd|]. left.
+    destruct (Nat.eq_dec k0 k) as [E|E]; [subst|apply pending_other; assumption].
+    eapply pending_same; [exact Pk| | |exact Pd]; simpl; auto.
+  - (* EInitRead *) destruct (phase s k0) eqn:Pk; try (left; exact Pd).
+    destruct (se_init se) eqn:Ini; [left; exact Pd|]. left.
+    destruct (Nat.eq_dec k0 k) as [E|E]; [subst|apply pending_other; assumption].
+    eapply pending_same; [exact Pk| | |exact Pd]; simpl; auto.
+    intro H. destruct (memn n0 (alive s)); [exact H|apply in_or_app; left; exact H].
+  - (* EDeliver *) destruct (phase s k0) eqn:Pk; try (left; exact Pd).
+    destruct (se_queue se) as [|[m a] r] eqn:Qu; [left; exact Pd|]. left.
+    destruct (Nat.eq_dec k0 k) as [E|E]; [subst|apply pending_other; assumption].
+    eapply pending_same; [exact Pk| | |exact Pd]; simpl.
+    + rewrite Qu. intros [H|H]; [inversion H; subst; right; apply in_or_app; right; left; reflexivity|left; exact H].
+    + intro H. destruct a; [exact H|apply in_or_app; left; exact H].
+  - (* EHandle *) destruct (phase s k0) eqn:Pk; try (left; exact Pd).
+    destruct (nth_error (se_tasks se) j) as [m|] eqn:Nt; [|left; exact Pd].
+    destruct (Nat.eq_dec k0 k) as [E|E].
+    + subst. destruct (Nat.eq_dec m n) as [En|En]; [subst; right; reflexivity|]. left.
+      eapply pending_frame;
+        [|apply (pending_same s k n se (mkSe (se_watch se) (se_listed se) (se_init se) (se_queue se) (remove_nth j (se_tasks se))) Pk); [| |exact Pd]];
+        [reflexivity|simpl; auto|simpl].
+      intro H. eapply In_remove_nth; eauto.
+    + left. eapply pending_frame; [|apply (pending_other s k n k0 (Active (mkSe (se_watch se) (se_listed se) (se_init se) (se_queue se) (remove_nth j (se_tasks se)))) E Pd)]. reflexivity.
+Qed.
+
+Lemma track_step : forall s0 s k n e, track s0 s k n -> ~ ends k e -> track s0 (step s e) k n.
+Proof.
+  intros s0 s k n e [Ex Ob [new0 Tr]] NE.
+  destruct (trace_grows s e) as [pre Tg].
+  constructor.
+  - eapply extends_trans; [exact Ex|apply wls_extends].
+  - destruct Ob as [Pd|[new [ws [T [I C]]]]].
+    + destruct (pending_step s k n e NE Pd) as [Pd'|H]; [left; exact Pd'|right].
+      exists (THandled k n (on_node n (wls s)) :: new0), (on_node n (wls s)).
+      split; [rewrite H, Tr; reflexivity|]. split; [left; reflexivity|].
+      apply on_node_extends. exact Ex.
+    + right. exists (pre ++ new), ws. split; [rewrite Tg, T, app_assoc; reflexivity|].
+      split; [apply in_or_app; right; exact I|exact C].
+  - exists (pre ++ new0). rewrite Tg, Tr, app_assoc. reflexivity.
+Qed.
+
+Lemma track_run : forall evs s0 s k n, track s0 s k n -> Forall (fun e => ~ ends k e) evs ->
+  track s0 (run s evs) k n.
+Proof.
+  induction evs as [|e t IH]; intros s0 s k n T F; simpl; [exact T|].
+  inversion F; subst. apply IH; [apply track_step; assumption|assumption].
+Qed.
+
+Lemma next_event_not_end : forall s k e, next_event s k = Some e -> ~ ends k e.
+Proof.
+  intros s k e H. unfold next_event in H. destruct (phase s k); try discriminate.
+  destruct (negb (se_watch se)); [inversion H; intros [X|X]; discriminate|].
+  destruct (negb (se_listed se)); [inversion H; intros [X|X]; discriminate|].
+  destruct (se_init se); [|inversion H; intros [X|X]; discriminate].
+  destruct (se_queue se); [|inversion H; intros [X|X]; discriminate].
+  destruct (se_tasks se); [discriminate|inversion H; intros [X|X]; discriminate].
+Qed.
+
+Lemma track_settle : forall fuel s0 s k n, track s0 s k n -> track s0 (settle fuel k s) k n.
+Proof.
+  induction fuel as [|f IH]; intros s0 s k n T; simpl; [exact T|].
+  destruct (next_event s k) as [e|] eqn:N; [|exact T].
+  apply IH. apply track_step; [exact T|]. eapply next_event_not_end. exact N.
+Qed.
+
+Lemma settle_terminates : forall fuel s k se, phase s k = Active se -> msr s se <= fuel ->
+  next_event (settle fuel k s) k = None.
+Proof.
+  induction fuel as [|f IH]; intros s k se P M; simpl.
+  - destruct (next_event s k) as [e|] eqn:N; [|first [exact N|reflexivity]].
+    destruct (settle_step s k se e P N) as [se' [_ [Lt _]]]. lia.
+  - destruct (next_event s k) as [e|] eqn:N; [|first [exact N|reflexivity]].
+    destruct (settle_step s k se e P N) as [se' [P' [Lt _]]]. apply (IH _ _ se' P'). lia.
+Qed.
+
+Lemma none_not_pending : forall s k n, next_event s k = None -> ~ pending s k n.
+Proof.
+  intros s k n N [se [P H]]. unfold next_event in N. rewrite P in N.
+  destruct (negb (se_watch se)); [discriminate|]. destruct (negb (se_listed se)); [discriminate|].
+  destruct (se_init se); [|discriminate].
+  destruct (se_queue se); [|discriminate]. destruct (se_tasks se); [|discriminate].
+  destruct H as [H|H]; destruct H.
+Qed.
+
+Definition handledP (s0 s : st) (k : nat) (n : node) : Prop :=
+  exists new ws, trace s = new ++ trace s0 /\ In (THandled k n ws) new /\ incl (on_node n (wls s0)) ws.
+
+Lemma handled_settle : forall fuel s0 s k n, handledP s0 s k n -> handledP s0 (settle fuel k s) k n.
+Proof.
+  induction fuel as [|f IH]; intros s0 s k n H; simpl; [exact H|].
+  destruct (next_event s k) as [e|]; [|exact H]. apply IH.
+  destruct (trace_grows s e) as [pre Tg]. destruct H as [new [ws [T [I C]]]].
+  exists (pre ++ new), ws. split; [rewrite Tg, T, app_assoc; reflexivity|].
+  split; [apply in_or_app; right; exact I|exact C].
+Qed.
+
+(* C28, all interleavings: the status of n disappears while watcher k is
+   active with its watch open; then ANY events follow (heartbeats, lapses,
+   creations, agent reports, other watchers, steps of k in any order) as long
+   as k's session is not ended; when k has finished its own steps, a handler
+   for n has run after the lapse and covered every workload that was recorded
+   on n at the lapse. *)
+Theorem down_interleaved : forall evs1 evs2 k se n,
+  let s0 := run init evs1 in
+  phase s0 k = Active se -> se_watch se = true -> memn n (alive s0) = true ->
+  Forall (fun e => ~ ends k e) evs2 ->
+  let s2 := run (step s0 (ELapse n)) evs2 in
+  let s3 := settle (settle_bound s2 k) k s2 in
+  exists new ws, trace s3 = new ++ trace s0 /\ In (THandled k n ws) new /\ incl (on_node n (wls s0)) ws.
+Proof.
+  intros evs1 evs2 k se n s0 P W A F s2 s3.
+  assert (T1 : track s0 (step s0 (ELapse n)) k n).
+  { constructor.
+    - apply wls_extends.
+    - left. simpl. rewrite A. unfold pending. rewrite phase_enqueue_any, P. simpl. rewrite W.
+      eexists. split; [reflexivity|]. left. simpl. apply in_or_app. right. left. reflexivity.
+    - exists []. simpl. rewrite A. reflexivity. }
+  assert (T2 : track s0 s2 k n) by (apply track_run; assumption).
+  destruct T2 as [Ex2 [[se2 [P2 H2]]|Hd] Tr2].
+  - assert (T3 : track s0 s3 k n).
+    { apply track_settle. constructor; [exact Ex2|left; exists se2; auto|exact Tr2]. }
+    destruct T3 as [_ [Pd|H] _]; [exfalso|exact H].
+    eapply none_not_pending; [|exact Pd].
+    apply (settle_terminates _ _ _ se2 P2). apply msr_bound. exact P2.
+  - apply (handled_settle _ s0 s2 k n). exact Hd.
+Qed.
